@@ -60,7 +60,7 @@ CLAIMS = {
          "DESIGN.md 4 (C08)"),
  "C10": ("Receiver-level accept decision (CommonValidator + validateParams + annotation linker, as ReceiverValidator.Validate combines them) for every route with <=1 URL name, <=2 function parameters (primitive or struct, optional context), <=2 parameter annotations "
          "of the five kinds with symbolic values and optional name alias: no error diagnostic iff the property's linking/body/form/primitive rules hold (soundness and completeness asserted separately); return signature and verb rules; no duplicate diagnostics. "
-         "Front end: 5184 perturbed source files (unsupported or missing verb, URL name / @Path reference / @Query reference retargeted or dropped, struct or slice query parameter, four return shapes, indentation, multibyte text) are accepted by GleecePipeline.Run iff the property's predicate holds (a method without @Method is not an endpoint). "
+         "Front end: 5184 perturbed source files (unsupported or missing verb, URL name / @Path reference / @Query reference retargeted or dropped, struct or slice query parameter, four return shapes, indentation, multibyte text) are accepted by GleecePipeline.Run iff the property's predicate holds (a method without @Method is not an endpoint); slices and arrays are accepted in the query only (4 types x 4 locations); a URL parameter at the very start of a route without leading slash is linked like any other (4 route shapes x 4 bindings). "
          "One recorded finding (alias-less @Path not checked against URL names) is reported as KNOWN-FINDING.",
          "Bounds as coded in harness/.../core/validators/zz_verif_c10.go. Outside: error-embedding lookup of the return type (go/types), controller-prefix URL names, slices/enums/aliases as parameter types (HIR shapes produced by the visitors), generics and cross-package parameter types.",
          "DESIGN.md 4 (C10)"),
